@@ -47,6 +47,7 @@ fn tcfg() -> TypeCfg {
 }
 
 fn sub_pipelines(c: &mut Case) -> CaseResult {
+    set_avoid_known(!c.strict);
     let ty0 = gen_type(&mut c.tape, &tcfg());
     let n = gen_len(&mut c.tape);
     let col = gen_column(&mut c.tape, &ty0, true, n, &ValCfg::default());
@@ -67,7 +68,16 @@ fn sub_pipelines(c: &mut Case) -> CaseResult {
         names.push(name.clone());
         c.class(format!("stage:{}", name.split('(').next().unwrap_or(&name)));
         let (want_ty, want_len) = expected_shape(&st, arr.data_type(), arr.len());
-        let r = no_panic(&what, || run_stage(&st, &mut c.tape, &ty, &arr))?;
+        let r = match catch(|| run_stage(&st, &mut c.tape, &ty, &arr)) {
+            Ok(r) => r,
+            Err(p) => {
+                // known finding (decimal rescale unwrap on null-slot payload) keeps one signature whatever the wrapper type
+                if p.loc.contains("cast/decimal.rs") && p.msg.contains("Option::unwrap()") {
+                    return Err(Fail::new("cast:decimal-rescale:null-payload-panic", format!("{} panicked at {}: {}", what, p.loc, p.msg)));
+                }
+                return Err(Fail::new(format!("{}:{}", what, p.sig()), format!("{} panicked at {}: {} (pipeline {:?})", what, p.loc, p.msg, names)));
+            }
+        };
         c.eval();
         match r {
             Err(_) => break, // error outcomes are judged by C02/C12/C13; the pipeline ends
@@ -336,6 +346,51 @@ fn sub_batches(c: &mut Case) -> CaseResult {
     Ok(())
 }
 
+/// reproductions of fixed findings
+fn sub_findings(c: &mut Case) -> CaseResult {
+    let _ = c.tape.u64();
+    c.nontrivial();
+    c.describe(json!({"finding_case": c.index}));
+    match c.index {
+        // fixed 7acfc16: PrimitiveRunBuilder::finish did not reset prev_run_end_index
+        0 => {
+            let r = no_panic("PrimitiveRunBuilder", || {
+                let mut b = PrimitiveRunBuilder::<Int16Type, Int32Type>::new();
+                b.append_value(5);
+                let first = b.finish();
+                b.append_value(7);
+                let second = b.finish();
+                (extract(&first), extract(&second))
+            });
+            match r {
+                Err(f) => return Err(Fail::new("PrimitiveRunBuilder:finish-reuse", f.msg)),
+                Ok((a, b)) => ensure!(a == vec![LValue::Int(5)] && b == vec![LValue::Int(7)], "PrimitiveRunBuilder:finish-reuse", "append(5), finish, append(7), finish gave {:?} then {:?}", a, b),
+            }
+        }
+        1 => {
+            let r = no_panic("PrimitiveRunBuilder", || {
+                let mut b = PrimitiveRunBuilder::<Int16Type, Int32Type>::new();
+                b.append_value(5);
+                let _ = b.finish();
+                extract(&b.finish_cloned())
+            });
+            match r {
+                Err(f) => return Err(Fail::new("PrimitiveRunBuilder:finish-reuse", f.msg)),
+                Ok(a) => ensure!(a.is_empty(), "PrimitiveRunBuilder:finish-reuse", "finish_cloned after finish gave {:?}", a),
+            }
+        }
+        // open C13f10 seen through C01: decimal -> decimal cast panics on the payload of a null slot
+        2 => {
+            let a = Decimal128Array::new(vec![i128::MAX, 100].into(), Some(arrow_buffer::NullBuffer::from(vec![false, true]))).with_precision_and_scale(5, 2).unwrap();
+            if let Err(f) = no_panic("cast", || arrow_cast::cast(&a, &arrow_schema::DataType::Decimal32(9, 2))) {
+                return Err(Fail::new("cast:decimal-rescale:null-payload-panic", f.msg));
+            }
+        }
+        _ => {}
+    }
+    Ok(())
+}
+
 fn main() {
     Check::new(
         "C01",
@@ -344,9 +399,10 @@ fn main() {
     )
     .assume("stage arguments respect documented preconditions; Err results end a pipeline and are not judged here")
     .assume("validate_full's validity-bitmap sizing rule (uses the values offset) is tolerated, see vp_engine::validate::check_valid")
-    .sub(Sub::new("pipelines", 8000, 200000, sub_pipelines).tape(512, 12000).require(&["stages-completed:3", "source:dictionary", "source:runend", "source:union", "source:view", "source:listview"]))
-    .sub(Sub::new("mutable_array_data", 3000, 80000, sub_mutable).tape(256, 8000))
-    .sub(Sub::new("builders", 3000, 60000, sub_builders).tape(64, 3000))
-    .sub(Sub::new("record_batch", 2000, 50000, sub_batches).tape(256, 12000))
+    .sub(Sub::new("findings", 0, 0, sub_findings).enumerate(3, 3))
+    .sub(Sub::new("pipelines", 60000, 1500000, sub_pipelines).tape(512, 12000).require(&["stages-completed:3", "source:dictionary", "source:runend", "source:union", "source:view", "source:listview"]))
+    .sub(Sub::new("mutable_array_data", 20000, 400000, sub_mutable).tape(256, 8000))
+    .sub(Sub::new("builders", 20000, 400000, sub_builders).tape(64, 3000))
+    .sub(Sub::new("record_batch", 10000, 200000, sub_batches).tape(256, 12000))
     .run()
 }
